@@ -7,9 +7,16 @@ same observables computed by plain list operations on the string of (atom, marku
 starting from the denotation of the raw tree (no normalisation, no parts).
 
 tree  ::= "chars" | {"y": name} | {"k": "text"|"tag"|"href"|"prot", "n": name, "u": url, "e": bool, "p": [tree…]}
+operand ::= tree | {"self": true}   (the current object itself)
+
+The model runs with the interpreter's Unicode case mapping / letters (`uniCase`, `Model/RichTextU.lean`).  For `split` the
+spec gives `parts` = the pieces under the part-wise reading (an occurrence of the separator counts only inside one markup:
+what the code documents) and `full` = the pieces the Python string operation gives on the characters when they differ;
+for `startswith` / `endswith` / `contains` it gives `part` and `full` in the same sense (`Spec/RichTextU.lean`).
 -/
 import PybtexModel.Drv.Json
 import PybtexModel.Spec.RichText
+import PybtexModel.Spec.RichTextU
 import PybtexModel.Gen.RichText
 open Lean
 namespace Pybtex.Drv.C08
@@ -143,88 +150,115 @@ def parseSep (j : Json) : Except String Sep := do
     | [] => throw "empty separator is outside the modelled domain (str.split raises ValueError)"
     | c :: cs => pure (.lit c cs)
 
-/-- is the abstract `split` specified for this separator / `keep_empty_parts`? -/
-def splitSpecified (sep : Sep) (keep : Bool) : Bool :=
-  match sep with
-  | .ws => !keep
-  | .lit _ [] => true
-  | .lit _ _ => false
+/-- `"re": "delim" | "dashes"`: split at a compiled pattern -/
+def parseRe (j : Json) : Except String (Option Re) := do
+  match j.getObjVal? "re" with
+  | .error _ => pure none
+  | .ok .null => pure none
+  | .ok (.str "delim") => pure (some .delim)
+  | .ok (.str "dashes") => pure (some .dashes)
+  | .ok _ => throw "unknown compiled pattern"
 
 def terms : List Str := Pybtex.Gen.terminators
+
+/-- the case mapping / letters the real code runs with: the interpreter's tables -/
+def cs : CaseSys := uniCase
 
 def errJ : Err → Json
   | .indexError => Json.str "IndexError"
 
+/-- an operand: a tree of constructor calls (the object built from it / its denotation) or `{"self": true}` = the
+current object itself -/
+def operand (t : RT) (a : Abs) (j : Json) : Except String (RT × Abs) := do
+  match j.getObjVal? "self" with
+  | .ok _ => pure (t, a)
+  | .error _ => let x ← tree j; pure (build x, abs x)
+
+def absListJ (ps : List Abs) : Json := arr (ps.map partSpec)
+
 /-- one step on both sides: (new model object, model res, new abstract value, spec res) -/
 def stepBoth (t : RT) (a : Abs) (j : Json) : Except String (RT × Json × Abs × Json) := do
   let o ← (← j.getObjVal? "o").getStr?
-  let simple (op : Op) : Except String (RT × Json × Abs × Json) :=
-    let m := match RT.step terms t op with
+  let simple (op : OpG) (aop : AbsOpG) : Except String (RT × Json × Abs × Json) :=
+    let m := match RT.stepG cs terms t op with
       | .ok t' => (t', Json.null)
       | .error e => (t, errJ e)
-    let s := match Abs.step terms a op.abs with
+    let s := match Abs.stepG cs terms a aop with
       | .ok a' => (a', Json.null)
       | .error e => (a, errJ e)
     pure (m.1, m.2, s.1, s.2)
   match o with
-  | "add" => let x ← tree (← j.getObjVal? "x"); let r ← simple (.add (build x)); pure (r.1, r.2.1, Abs.add a (abs x), r.2.2.2)
-  | "radd" => let x ← tree (← j.getObjVal? "x"); let r ← simple (.radd (build x)); pure (r.1, r.2.1, Abs.add (abs x) a, r.2.2.2)
-  | "append" => let x ← tree (← j.getObjVal? "x"); let r ← simple (.append (build x)); pure (r.1, r.2.1, Abs.append a (abs x), r.2.2.2)
+  | "add" => let x ← operand t a (← j.getObjVal? "x"); simple (.add x.1) (.add x.2)
+  | "radd" => let x ← operand t a (← j.getObjVal? "x"); simple (.radd x.1) (.radd x.2)
+  | "append" => let x ← operand t a (← j.getObjVal? "x"); simple (.append x.1) (.append x.2)
   | "join" =>
-    let xs ← (← getArr j "xs").mapM tree
-    let r ← simple (.joinWith (xs.map build))
-    pure (r.1, r.2.1, Abs.join a (xs.map abs), r.2.2.2)
-  | "slice" => simple (.slice (← optInt j "i") (← optInt j "j"))
-  | "index" => simple (.index (← getInt j "i"))
-  | "upper" => simple .upper
-  | "lower" => simple .lower
-  | "capfirst" => simple .capfirst
-  | "capitalize" => simple .capitalize
-  | "add_period" => simple .addPeriod
+    let xs ← (← getArr j "xs").mapM (operand t a)
+    simple (.joinWith (xs.map (·.1))) (.joinWith (xs.map (·.2)))
+  | "slice" => let i ← optInt j "i"; let k ← optInt j "j"; simple (.slice i k) (.slice i k)
+  | "index" => let i ← getInt j "i"; simple (.index i) (.index i)
+  | "upper" => simple .upper .upper
+  | "lower" => simple .lower .lower
+  | "capfirst" => simple .capfirst .capfirst
+  | "capitalize" => simple .capitalize .capitalize
+  | "add_period" =>
+    match j.getObjVal? "x" with
+    | .error _ => simple (.addPeriod (.str ['.'])) (.addPeriod Abs.periodAbs)
+    | .ok xj => let x ← operand t a xj; simple (.addPeriod x.1) (.addPeriod x.2)
+  | "abbreviate" => simple .abbreviate .abbreviate
   | "split" =>
-    let sep ← parseSep j
     let keep ← optBool j "keep"
     let pick ← optNat j "pick"
-    let kd := keepDefault sep keep
-    let parts := split sep t keep
-    let rejoinM : Json := match sep with
-      | .ws => Json.null
-      | .lit c cs => packed (optFlatJ (render traceBackend (join (.str (c :: cs)) parts)))
-    let resM := obj [("parts", arr (parts.map partModel)), ("rejoin", rejoinM)]
-    let specified := splitSpecified sep kd
-    let partsS := Abs.split sep kd a
-    let rejoinS : Json := match sep with
-      | .lit c [] =>
-        if kd then packed (flatJ (Abs.join ⟨.string, [(.ch c, [])]⟩ partsS).atoms) else Json.null
-      | _ => Json.null
-    let resS := if specified then obj [("parts", arr (partsS.map partSpec)), ("rejoin", rejoinS)]
-                else obj [("rejoin", rejoinS)]
-    match pick with
-    | none => pure (t, resM, a, resS)
-    | some k =>
-      if !specified then throw "split with pick needs a specified separator" else
-      let t' := match parts[k % parts.length]? with
-        | some p => p
-        | none => t
-      let a' := match partsS[k % partsS.length]? with
-        | some p => p
-        | none => a
-      pure (t', resM, a', resS)
+    match (← parseRe j) with
+    | some re =>
+      let kd := keepRe keep
+      let parts := splitRe re t keep
+      let partsS := Abs.splitReG true re kd a
+      let partsF := Abs.splitReG false re kd a
+      let resM := obj [("parts", arr (parts.map partModel)), ("rejoin", Json.null)]
+      let resS := obj [("parts", absListJ partsS), ("full", if partsF = partsS then Json.null else absListJ partsF),
+                       ("rejoin", Json.null)]
+      match pick with
+      | none => pure (t, resM, a, resS)
+      | some k => pure (RT.pickOf parts k t, resM, Abs.pickOf partsS k a, resS)
+    | none =>
+      let sep ← parseSep j
+      let kd := keepDefault sep keep
+      let parts := split sep t keep
+      let rejoinM : Json := match sep with
+        | .ws => Json.null
+        | .lit c cs => packed (optFlatJ (render traceBackend (join (.str (c :: cs)) parts)))
+      let resM := obj [("parts", arr (parts.map partModel)), ("rejoin", rejoinM)]
+      let partsS := Abs.splitG true sep kd a
+      let partsF := Abs.splitG false sep kd a
+      let rejoinS : Json := match sep with
+        | .lit c cs =>
+          if kd then packed (flatJ (Abs.join ⟨.string, (c :: cs).map fun d => (.ch d, [])⟩ partsS).atoms) else Json.null
+        | _ => Json.null
+      let resS := obj [("parts", absListJ partsS), ("full", if partsF = partsS then Json.null else absListJ partsF),
+                       ("rejoin", rejoinS)]
+      match pick with
+      | none => pure (t, resM, a, resS)
+      | some k => pure (RT.pickOf parts k t, resM, Abs.pickOf partsS k a, resS)
   | "startswith" =>
     let ps ← getStrList j "p"
-    pure (t, Json.bool (startsWith ps t), a, Json.bool (Abs.startsWith ps a))
+    pure (t, Json.bool (startsWith ps t), a,
+          obj [("part", Json.bool (Abs.startsWith ps a)), ("full", Json.bool (Abs.startsWithFull ps a))])
   | "endswith" =>
     let ps ← getStrList j "p"
-    pure (t, Json.bool (endsWith ps t), a, Json.bool (Abs.endsWith ps a))
+    pure (t, Json.bool (endsWith ps t), a,
+          obj [("part", Json.bool (Abs.endsWith ps a)), ("full", Json.bool (Abs.endsWithFull ps a))])
   | "contains" =>
     let s ← getStr j "s"
-    pure (t, Json.bool (contains s t), a, Json.bool (Abs.contains s a))
-  | "isalpha" => pure (t, Json.bool (isAlphaT t), a, Json.bool (Abs.isAlpha a))
+    pure (t, Json.bool (contains s t), a,
+          obj [("part", Json.bool (Abs.contains s a)), ("full", Json.bool (Abs.containsFull s a))])
+  | "isalpha" => pure (t, Json.bool (isAlphaG cs.alpha t), a, Json.bool (Abs.isAlphaG cs.alpha a))
   | "eq" =>
-    let x ← tree (← j.getObjVal? "x")
-    let u := build x
-    let e : Bool := decide (a = abs x)
-    pure (t, arr [Json.bool (eq t u), Json.bool (eq u t)], a, arr [Json.bool e, Json.bool e])
+    let x ← operand t a (← j.getObjVal? "x")
+    let e : Bool := decide (a = x.2)
+    pure (t, arr [Json.bool (eqVal t (.text x.1)), Json.bool (eqVal x.1 (.text t))], a, arr [Json.bool e, Json.bool e])
+  | "eqnt" =>
+    -- `cur == v` and `v == cur` for a Python value `v` that is not a rich text: False, nothing raised
+    pure (t, arr [Json.bool (eqVal t .other), Json.bool (eqVal t .other)], a, arr [Json.bool false, Json.bool false])
   | _ => throw s!"unknown richtext op {o}"
 
 /-- first-occurrence de-duplication of a list of results: (distinct values, index of each result).
@@ -281,7 +315,7 @@ def isQuery (j : Json) : Bool :=
   match j.getObjVal? "o" with
   | .ok (.str o) =>
     if o == "split" then (match j.getObjVal? "pick" with | .ok .null => true | .error _ => true | _ => false)
-    else ["eq", "startswith", "endswith", "contains", "isalpha", "slicetab", "indextab"].contains o
+    else ["eq", "eqnt", "startswith", "endswith", "contains", "isalpha", "slicetab", "indextab"].contains o
   | _ => false
 
 def snapM (j : Json) (t : RT) (res : Json) : Json :=
